@@ -1,5 +1,7 @@
 import H264.SliceC06
 import H264.SliceExact
+import H264.SliceConverse
+import H264.History
 /-! # C06 — Slice header parsing follows H.264 7.3.3 and stops exactly at slice data
 
 Model: `Slice.parseSliceHeader ctx hdr` mirrors `SliceHeader::from_bits(ctx, reader, nal_header)`.
@@ -28,5 +30,38 @@ the terminator parses like flag 0 (exactness of the loop) -/
 theorem mod_list_exact (s s' : Src) (ops : List ModOp) (h : readModList s = .ok (ops, s')) :
     (∀ o ∈ ops, o.WF) ∧ (∃ lf, s.bits = encModListAlt ops lf ++ s'.bits) ∧ s'.fin = s.fin :=
   readModList_exact s s' ops h
+
+/-- **converse** ("each conditional element is read exactly when the standard's condition holds"): whatever the parser
+accepts, in any context, is the standard-order encoding of exactly what it returned followed by the untouched rest —
+no bit skipped, read twice or read under another condition. The two places where different bit strings give the same
+value are explicit: `alt` (an empty modification list coded as flag 1 + terminator) and `x` (the discarded
+slice_qs_delta / alpha / beta offsets). The returned ids name the context entries used, slice data follows, and the
+result satisfies the presence conditions `SliceWF` of the forward theorem -/
+theorem converse (ctx : Ctx) (hdr : NalHdr) (s s' : Src) (h : SliceHeader) (sid pid : Nat)
+    (hok : parseSliceHeader ctx hdr s = .ok ((h, sid, pid), s')) :
+    ∃ pps sps x alt, ctx.pps pid = some pps ∧ pps.spsId = sid ∧ ctx.sps sid = some sps ∧ pid ≤ 255 ∧
+      s.bits = encSliceHeaderAlt sps pps hdr h x pid alt ++ s'.bits ∧ s'.fin = s.fin ∧
+      (s'.bits.drop 1).any id = true ∧
+      (pps.ppsId = pid → SliceWF sps pps hdr h x) :=
+  C06_converse ctx hdr s s' h sid pid hok
+
+/-- the encoder of the converse is the encoder of the forward theorem (canonical choices) -/
+theorem converse_encoder_is_standard (sps : Sps.Sps) (pps : Pps.Pps) (hdr : NalHdr) (h : SliceHeader) (x : Extra) :
+    encSliceHeaderAlt sps pps hdr h x pps.ppsId ⟨false, false⟩ = encSliceHeader sps pps hdr h x :=
+  encSliceHeaderAlt_std sps pps hdr h x
+
+/-- both directions joined, **for every context reachable by feeding parameter-set NALs to the parsers**: a header
+accepted there is conforming (`SliceWF`) and its standard encoding parses back to the same result in front of any
+slice data. (The hypothesis of `C06_reencode` — PPS stored under their own ids — is the context invariant of
+`History.reachable_inv`.) -/
+theorem accepted_reencodes_in_reachable_context (ops : List History.Op) (hdr : NalHdr) (s s' : Src) (h : SliceHeader)
+    (sid pid : Nat)
+    (hok : parseSliceHeader (History.sctx (History.run ops)) hdr s = .ok ((h, sid, pid), s')) :
+    ∃ pps sps x, (History.sctx (History.run ops)).pps pid = some pps ∧ (History.sctx (History.run ops)).sps sid = some sps ∧
+      SliceWF sps pps hdr h x ∧
+      ∀ (d : Bool) (data : List Bool) (z : Nat),
+        parseSliceHeader (History.sctx (History.run ops)) hdr ⟨encSliceHeader sps pps hdr h x ++ d :: (data ++ trailing z), .eof⟩
+          = .ok ((h, sid, pid), ⟨d :: (data ++ trailing z), .eof⟩) :=
+  C06_reencode _ hdr s s' h sid pid hok (fun p hp => ((History.reachable_inv ops).2 pid p hp).1)
 
 end C06
